@@ -73,9 +73,3 @@ Proof.
   rewrite (parse_e_mono f (Nat.max f n) 0 _ _ ltac:(lia) E) in Hn. injection Hn as ->. reflexivity.
 Qed.
 
-Corollary parse_auto_sound : forall st e, good st e = true -> expr_kindb (ekind e) = true ->
-  forall e', parse_auto (print st e) = Some e' -> e' = e.
-Proof.
-  intros st e Hg Hk e' H. unfold parse_auto in H. revert H. generalize (4 + 2 * length (print st e)). intros f H.
-  exact (roundtrip_unique st e Hg Hk f e' H).
-Qed.
